@@ -33,6 +33,8 @@ type Conn struct {
 	// WriteHook, if set, decides the result of a Write (n accepted, err). Accepted bytes are recorded.
 	WriteHook func(p []byte) (int, error)
 
+	TotalIn    int    // total bytes ever fed inbound
+	Head       []byte // first 16 inbound bytes
 	Out        []byte
 	Writes     [][]byte
 	Reads      int // number of transport Read calls
@@ -61,6 +63,10 @@ func Pipe() (*Conn, *Conn) {
 func (c *Conn) Feed(b []byte) {
 	c.mu.Lock()
 	c.in = append(c.in, b...)
+	c.TotalIn += len(b)
+	if len(c.Head) < 16 {
+		c.Head = append(c.Head, b[:min(len(b), 16-len(c.Head))]...)
+	}
 	c.mu.Unlock()
 	c.cond.Broadcast()
 }
@@ -72,6 +78,19 @@ func (c *Conn) End(err error) {
 	c.mu.Unlock()
 	c.cond.Broadcast()
 }
+
+// FirstHandshakeLen returns the declared length of the first handshake message if the
+// stream starts with a handshake record, else -1.
+func (c *Conn) FirstHandshakeLen() int {
+	c.mu.Lock()
+	defer c.mu.Unlock()
+	if len(c.Head) < 9 || c.Head[0] != 22 {
+		return -1
+	}
+	return int(c.Head[6])<<16 | int(c.Head[7])<<8 | int(c.Head[8])
+}
+
+func (c *Conn) FedTotal() int { c.mu.Lock(); defer c.mu.Unlock(); return c.TotalIn }
 
 func (c *Conn) Pending() int { c.mu.Lock(); defer c.mu.Unlock(); return len(c.in) }
 
